@@ -700,11 +700,22 @@ func raceSlowHandler(c *Ctx) (int64, bool) {
 		iters = 3
 	}
 	var total int64
-	for it := 0; it < iters; it++ {
+	for it := 0; it < 2*iters; it++ {
 		total++
 		conn := &raceConn{in: make(chan []byte, 4), closed: make(chan struct{})}
 		clk := &setClock{t: time.Date(2030, 1, 1, 0, 0, 0, 0, time.UTC)}
-		cl, err := stun.NewClient(conn, stun.WithClock(clk), stun.WithRTO(10*time.Millisecond), stun.WithNoRetransmit, stun.WithTimeoutRate(time.Millisecond))
+		opts := []stun.ClientOption{stun.WithClock(clk), stun.WithRTO(10 * time.Millisecond), stun.WithNoRetransmit, stun.WithTimeoutRate(time.Millisecond)}
+		if it%2 == 1 {
+			// everything at its default (system clock, default rate), and another idle client with default options alive
+			// in the process: what one client's Close waits for is its own collector, whoever else has one
+			opts = []stun.ClientOption{stun.WithRTO(10 * time.Millisecond), stun.WithNoRetransmit}
+			bystander, berr := stun.NewClient(&raceConn{in: make(chan []byte, 4), closed: make(chan struct{})})
+			if berr != nil {
+				c.Fail("NewClient: %v", berr)
+			}
+			defer bystander.Close()
+		}
+		cl, err := stun.NewClient(conn, opts...)
 		if err != nil {
 			c.Fail("NewClient: %v", err)
 		}
